@@ -15,6 +15,7 @@
 #include "../sim/driver.hpp"
 #include "../sim/worker.hpp"
 
+#include <initializer_list>
 #include <optional>
 #include <variant>
 #include <vector>
@@ -306,6 +307,27 @@ struct OptDriver : DriverBase<OptDriver<T>> {
         }
     }
 
+    // after a move the source must really have been moved from (std::optional moves the contained value; a copy
+    // instead of a move would leave the source's value intact)
+    void source_must_be_moved_from(int b, bool viaAssignmentOntoEngaged)
+    {
+        if constexpr (tracked) {
+            if constexpr (etl::is_same_v<T, TrackedDA>) {
+                if (viaAssignmentOntoEngaged) {
+                    return; // defaulted move assignment leaves the source's value alone
+                }
+            }
+            if (!model[b].has_value()) {
+                return;
+            }
+            long long got = 0;
+            observe("moved-from source", [&] { got = value_of(**obj[b]); });
+            if (got != kMovedFrom) {
+                ctx.violation("C07", "diff:optional:source-not-moved-from", "a move left the source's value intact: the value was copied, not moved");
+            }
+        }
+    }
+
     void step(Step const& st)
     {
         int const a      = static_cast<int>(st.a % static_cast<uint32_t>(pool));
@@ -410,6 +432,7 @@ struct OptDriver : DriverBase<OptDriver<T>> {
                 m         = model[b];
                 unspec[a] = false;
                 unspec[b] = tracked && model[b].has_value(); // std: the source stays engaged, its value is moved-from
+                source_must_be_moved_from(b, was);
                 SIM_COUNT("F7.moved_from_created");
                 changed(was, m.has_value());
                 ++ctx.boundaryEvents;
@@ -692,6 +715,7 @@ struct OptDriver : DriverBase<OptDriver<T>> {
         case 5:
             m         = model[b];
             unspec[b] = tracked && model[b].has_value();
+            source_must_be_moved_from(b, false);
             SIM_COUNT("F7.moved_from_created");
             break;
         case 6:
@@ -1231,6 +1255,27 @@ struct VarDriver : DriverBase<VarDriver<Ts...>> {
                 ctx.violation("C07", "diff:variant:visit", "visit did not call the visitor exactly once with the active alternative");
                 return;
             }
+            // visiting an rvalue variant must hand the visitor an rvalue of the active alternative, whatever its index
+            if constexpr (copyable) {
+                int category = 0;
+                void* mem    = arena_prepare(kTemp, sizeof(V), plan.cfg, 31);
+                bool okr     = observe("visit-rvalue", [&] {
+                    V* tmp = new (mem) V(a);
+                    etl::visit(
+                        [&](auto&& alt) { category = etl::is_lvalue_reference_v<decltype(alt)> ? 1 : (etl::is_const_v<etl::remove_reference_t<decltype(alt)>> ? 3 : 2); },
+                        static_cast<V&&>(*tmp)
+                    );
+                    tmp->~V();
+                });
+                arena_retire(kTemp);
+                if (!okr) {
+                    return;
+                }
+                if (category != 2) {
+                    ctx.violation("C07", "diff:variant:visit-value-category", "visit of an rvalue variant passed the alternative with value category " + std::to_string(category) + " (2 = non-const rvalue expected)");
+                    return;
+                }
+            }
             // visit_with_index
             size_t gotIndex = 99;
             int gotValue    = -1;
@@ -1627,6 +1672,14 @@ struct VarDriver : DriverBase<VarDriver<Ts...>> {
                 bool srcTracked = false;
                 with_index<NA>(model[b].index, [&](auto ic) { srcTracked = is_tracked_v<Alt<decltype(ic)::value>>; });
                 unspec[b] = srcTracked;
+                if (srcTracked) {
+                    // move construction must move the active alternative (whatever its index), as std::variant does
+                    int got = 0;
+                    observe("moved-from source", [&] { with_index<NA>(model[b].index, [&](auto ic) { got = alt_value((*obj[b])[ic]); }); });
+                    if (got != kMovedFrom) {
+                        ctx.violation("C07", "diff:variant:source-not-moved-from", "move construction left the source alternative intact: it was copied, not moved");
+                    }
+                }
                 SIM_COUNT("F7.moved_from_created");
                 break;
             }
@@ -2115,6 +2168,126 @@ struct ExpDriver : DriverBase<ExpDriver<T, E>> {
     }
 };
 
+// ================================================================================================ in-place construction
+// An alternative type with both a (count, value) and an initializer_list constructor: in_place / emplace / unexpect must
+// direct-non-list-initialise it, exactly as the std types do (parentheses, not braces).
+struct Bag {
+    int n     = 0;
+    int first = 0;
+
+    Bag() = default;
+
+    Bag(int count, int value)
+        : n(count)
+        , first(value)
+    {
+    }
+
+    Bag(std::initializer_list<int> il)
+        : n(static_cast<int>(il.size()) + 1000)
+        , first(il.size() != 0 ? *il.begin() : 0)
+    {
+    }
+
+    [[nodiscard]] auto digest() const -> int { return n * 10 + first % 10; }
+};
+
+struct InitDriver : DriverBase<InitDriver> {
+    using Base = DriverBase<InitDriver>;
+
+    InitDriver(Plan const& p, Ctx& c)
+        : Base(p, c)
+    {
+    }
+
+    void resync(int /*s*/) { }
+
+    auto check_state(int /*s*/, char const* /*p*/, char const* /*x*/) -> bool { return true; }
+
+    void run()
+    {
+        for (size_t i = 0; i < plan.steps.size() && !ctx.stop; ++i) {
+            Step const& st = plan.steps[i];
+            ctx.step       = static_cast<int>(i);
+            g_crash.step   = ctx.step;
+            int const cnt  = 2 + static_cast<int>(st.k[0] % 4);
+            int const val  = 1 + static_cast<int>(st.v[0] % 7);
+            int const want = cnt * 10 + val % 10;
+            int const form = st.op;
+            begin_op(ops()[static_cast<size_t>(form)].name, 0);
+            ctx.log.kv("cnt", cnt);
+            ctx.log.kv("val", val);
+            int got = -1;
+            bool ok = call(-1, false, false, [&] {
+                switch (form) {
+                case 0: {
+                    etl::optional<Bag> o(etl::in_place, cnt, val);
+                    got = o->digest();
+                    break;
+                }
+                case 1: {
+                    etl::optional<Bag> o;
+                    got = o.emplace(cnt, val).digest();
+                    break;
+                }
+                case 2: {
+                    etl::variant<int, Bag> v(etl::in_place_index<1>, cnt, val);
+                    got = v[etl::index_v<1>].digest();
+                    break;
+                }
+                case 3: {
+                    etl::variant<int, Bag> v(etl::in_place_type<Bag>, cnt, val);
+                    got = etl::get_if<Bag>(&v)->digest();
+                    break;
+                }
+                case 4: {
+                    etl::variant<int, Bag> v;
+                    got = v.emplace<1>(cnt, val).digest();
+                    got = got == want ? v.emplace<Bag>(cnt, val).digest() : got;
+                    break;
+                }
+                case 5: {
+                    etl::expected<Bag, int> e(etl::in_place, cnt, val);
+                    got = e->digest();
+                    break;
+                }
+                case 6: {
+                    etl::expected<int, Bag> e(etl::unexpect, cnt, val);
+                    got = e.error().digest();
+                    break;
+                }
+                default: {
+                    // copies and moves of the owner must not re-initialise the alternative from a braced list either
+                    etl::variant<int, Bag> v(etl::in_place_index<1>, cnt, val);
+                    etl::variant<int, Bag> c(v);
+                    etl::variant<int, Bag> m(static_cast<etl::variant<int, Bag>&&>(v));
+                    etl::optional<Bag> o(etl::in_place, cnt, val);
+                    etl::optional<Bag> oc(o);
+                    got = (c[etl::index_v<1>].digest() == want && m[etl::index_v<1>].digest() == want && oc->digest() == want) ? want : -2;
+                    break;
+                }
+                }
+            });
+            if (ok && got != want) {
+                ctx.violation("C07", std::string("diff:in-place-initialisation:") + ops()[static_cast<size_t>(form)].name, "in-place construction did not direct-(non-list-)initialise the alternative: digest " + std::to_string(got) + " want " + std::to_string(want));
+            }
+            ++ctx.stateChanging;
+            ++ctx.boundaryEvents;
+            ctx.log.kv("got", got);
+            if (g_counting) {
+                states().insert(mix64(static_cast<uint64_t>(form * 1000 + want)));
+            }
+            ctx.log.nl();
+        }
+    }
+
+    static auto ops() -> std::vector<OpDef> const&
+    {
+        static std::vector<OpDef> const o = {{"optional_in_place", 1}, {"optional_emplace", 1}, {"variant_in_place_index", 1}, {"variant_in_place_type", 1}, {"variant_emplace", 1}, {"expected_in_place", 1}, {"expected_unexpect", 1}, {"copy_move", 1}};
+        return o;
+    }
+};
+
 template <typename D>
 void add(std::string name, bool lifetime)
 {
@@ -2175,5 +2348,18 @@ void register_ovx_2()
     add<ExpDriver<sim::Tracked, sim::TrackedB>>("expected<Tracked,TrackedB>", true);
     add<ExpDriver<sim::Tracked, sim::Tracked>>("expected<Tracked,Tracked>", true);
     add<ExpDriver<sim::TrackedDA, int>>("expected<TrackedDA,int>", true);
+    {
+        Scenario sc;
+        sc.family   = "ovx";
+        sc.name     = "in-place-initialisation<Bag>";
+        sc.ops      = InitDriver::ops();
+        sc.props    = {"C07"};
+        sc.maxSteps = 8;
+        sc.run      = [](Plan const& p, Ctx& c) {
+            InitDriver d(p, c);
+            d.run();
+        };
+        registry().push_back(std::move(sc));
+    }
 }
 #endif
